@@ -1,2 +1,57 @@
-From Cmr Require Import Base Det TreeModel.
-Theorem placeholder_C03 : True. Proof. exact I. Qed.
+(* Properties_C03.v — C03: every returned Seymour decomposition tree recomposes to the matrices it claims.
+   Statements closed by `exact`; proofs in TreeProofs.v (over KsumProofs, PivotProofs, SpProofs). *)
+From Cmr Require Import Base Det BaseProofs PivotModel PivotProofs TuModel SpModel SpProofs SpProofs2
+  GraphModel GraphProofs KsumModel KsumProofs TreeModel TreeProofs.
+Local Open Scope Z_scope.
+
+(* the tree checker accepts exactly the trees all of whose nodes (with their children) pass the node check *)
+Theorem C03_checker_covers_every_node : forall t,
+  check_tree t = 0 <-> Forall_tree (fun P Cs => check_node P Cs = 0) t.
+Proof. exact check_tree_all_nodes_iff. Qed.
+Print Assumptions C03_checker_covers_every_node.
+
+(* What an accepted node guarantees, by node type (all sizes):
+   - 1-sum: at least two children; the parent is, under the jointly bijective child-to-parent maps, the block-diagonal
+     matrix of the children;
+   - 2-, Delta-, Y-, 3-sum: two children that have the documented shape; the documented block formula (KsumModel.ksum,
+     proved equal to [A a b^T; d c^T D] etc. in Properties_C12) applied with the recorded special rows/columns gives a
+     matrix Mc which equals the parent matrix under the child-to-parent maps of the kept lines (bijective onto the
+     parent's rows and columns);
+   - pivot node: pairwise distinct in-range pivots; the child is the parent after the recorded pivots (PivotModel,
+     Properties_C13) with the documented element maps; the child is a leaf, a Delta-, 3- or Y-sum;
+   - series-parallel node: the recorded reductions are genuine one after another (SpModel.apply_reds) and the child is
+     exactly the submatrix of the surviving lines (no child: everything was removed);
+   - other types are leaves. *)
+Theorem C03_node_recomposes : forall P Cs,
+  check_node P Cs = 0 ->
+  node_common P Cs /\ check_flags P = 0 /\
+  ((t_type P = T_ONESUM /\ onesum_spec P Cs) \/
+   (is_sum_type (t_type P) = true /\ sum_spec P Cs) \/
+   (t_type P = T_PIVOTS /\ pivot_spec P Cs) \/
+   (t_type P = T_SP /\ sp_spec P Cs) \/
+   (is_inner_type (t_type P) = false /\ t_links P = [] /\ Cs = [])).
+Proof. exact check_node_sound. Qed.
+Print Assumptions C03_node_recomposes.
+
+(* the recorded reductions of an accepted series-parallel node form a chain of genuine SP steps *)
+Theorem C03_sp_node_steps : forall P Cs, sp_spec P Cs ->
+  exists lr lc,
+    apply_reds (t_tern P) (t_M P) (all_true (t_m P)) (all_true (t_n P)) (node_reds P) = Some (lr, lc) /\
+    sp_steps (t_tern P) (t_M P) (all_true (t_m P), all_true (t_n P)) (lr, lc).
+Proof.
+  intros P Cs [lr [lc [H _]]]. exists lr, lc. split; [exact H|].
+  exact (proj1 (apply_reds_sound _ _ _ _ _ _ _ H)).
+Qed.
+Print Assumptions C03_sp_node_steps.
+
+(* whenever the judge accepts a record carrying a tree: the root's matrix is the input (its support for the binary
+   tree of a ternary TU test) and every node of the tree passes the node check above *)
+Theorem C03_judge_sound : forall rec cfg bot m n M tr rest,
+  tree_input rec = Some ((cfg, bot, (m, n, M), 0, Some tr), rest) ->
+  judge_tree rec = 0 ->
+  t_m (info tr) = m /\ t_n (info tr) = n /\
+  t_M (info tr) = (if bot then support M else M) /\
+  check_tree tr = 0 /\
+  Forall_tree (fun P Cs => check_node P Cs = 0) tr.
+Proof. exact judge_tree_sound. Qed.
+Print Assumptions C03_judge_sound.
